@@ -5,7 +5,8 @@
     [partition] (multisequence_partition, C08) and [seqmerge] (the sequential multiway_merge_base, C05) are
     universally quantified; what is assumed of them is visible in each statement:
     [partition_spec]  = at every rank 0..size the result is a stable split (ties by sequence number) of that sum;
-    [seqmerge_stable_spec] = the stable sequential merge of sorted sequences returns firstn n of the stable merge.
+    [seqmerge_stable_spec] = the stable sequential merge (without sentinels, as called on the parallel path) of sorted
+      sequences returns firstn n of the stable merge ([seqmerge_stable_spec_at sentinels] for the fall-back).
     [parallel_result seqs size p r] says: r = Some (threads, cursors, size) with
       contiguous threads 0 size          (windows are disjoint, ordered, cover [0,size), each thread delivers what it announces)
       output = firstn size (smerge seqs)  (values equal the sequential stable merge)
@@ -13,7 +14,7 @@
       number of threads = min p total. *)
 From Coq Require Import List Bool Arith ZArith Sorting.Sorted.
 From TLXV Require Import Common.Order C07.SMerge C07.PMWM C07.PMWMProofs C07.PMWMExact C07.PMWMSampling
-  C07.PMWMTop C07.PMWMExamples.
+  C07.PMWMTop C07.PMWMExamples C07.Instances.
 Import ListNotations.
 
 (** A stable split of sum r cuts the stable merge exactly at r (why disjoint chunks merge independently). *)
@@ -154,7 +155,7 @@ Theorem C07_front_end_fallback_stable : forall (A : Type) (ltb : A -> A -> bool)
     sw sentinels sampling (seqs : list (list A)) size p os,
   seqs <> [] -> goes_parallel sw (length seqs) size p = false ->
   Forall (fun l => Sorted (sorted_rel ltb) l) seqs -> size <= total seqs ->
-  seqmerge_stable_spec ltb seqmerge ->
+  seqmerge_stable_spec_at ltb seqmerge sentinels ->
   exists ts cur, pmwm ltb partition seqmerge sw true sentinels sampling seqs size p os =
                  Some {| p_threads := ts; p_cursors := cur; p_ret := size |} /\
                  contiguous ts 0 size /\ output ts = firstn size (smerge ltb seqs) /\ length ts = 1.
@@ -173,6 +174,52 @@ Theorem C07_instance : forall p, 1 <= p ->
     (pmwm_base Nat.ltb (partition_ref Nat.ltb) (seqmerge_ref Nat.ltb) true false [[1; 1]; [1; 2]] 3 p 10).
 Proof. exact ex_exact_instance. Qed.
 Print Assumptions C07_instance.
+
+(** * CLOSED versions: [partition] := the proved C08 model of (repaired) multisequence_partition ([part08], adapter
+    over C08.MSP.partition), [seqmerge] := the proved C05 model of multiway_merge_base with its k / algorithm
+    switch ([seq05 alg], adapter over C05.Model.mwm_base with the reference tournament trees).  No hypothesis
+    about partition or the sequential merge is left: for every strict weak order, every tuple of sorted
+    sequences (empty ones allowed), every size <= total, every p >= 1, every merge algorithm [alg]. *)
+Theorem C07_closed_parallel_exact_stable : forall (A : Type) (ltb : A -> A -> bool), SWO ltb ->
+  forall alg (seqs : list (list A)) (size p os : nat),
+  Forall (fun l => Sorted (sorted_rel ltb) l) seqs -> size <= total seqs -> 1 <= p ->
+  parallel_result ltb seqs size p (pmwm_base ltb (part08 ltb) (seq05 ltb alg) true false seqs size p os).
+Proof. exact @closed_parallel_exact_stable. Qed.
+Print Assumptions C07_closed_parallel_exact_stable.
+
+Theorem C07_closed_parallel_sampling_stable : forall (A : Type) (ltb : A -> A -> bool), SWO ltb ->
+  forall alg (seqs : list (list A)) (size p os : nat),
+  Forall (fun l => Sorted (sorted_rel ltb) l) seqs -> size <= total seqs -> 1 <= p -> 1 <= os ->
+  parallel_result ltb seqs size p (pmwm_base ltb (part08 ltb) (seq05 ltb alg) true true seqs size p os).
+Proof. exact @closed_parallel_sampling_stable. Qed.
+Print Assumptions C07_closed_parallel_sampling_stable.
+
+(** unstable variants, closed: the conjuncts of C07_parallel_unstable_partial and the sortedness of the output *)
+Theorem C07_closed_parallel_unstable : forall (A : Type) (ltb : A -> A -> bool), SWO ltb ->
+  forall alg sampling (seqs : list (list A)) (size p os : nat),
+  Forall (fun l => Sorted (sorted_rel ltb) l) seqs -> size <= total seqs -> 1 <= p -> (sampling = true -> 1 <= os) ->
+  parallel_result_unstable ltb seqs size p (pmwm_base ltb (part08 ltb) (seq05 ltb alg) false sampling seqs size p os) /\
+  forall r, pmwm_base ltb (part08 ltb) (seq05 ltb alg) false sampling seqs size p os = Some r ->
+            Sorted (sorted_rel ltb) (output (p_threads r)).
+Proof. exact @closed_parallel_unstable. Qed.
+Print Assumptions C07_closed_parallel_unstable.
+
+(** the stable fall-back (entry points without sentinels), closed *)
+Theorem C07_closed_fallback_stable : forall (A : Type) (ltb : A -> A -> bool), SWO ltb ->
+  forall alg sw sampling (seqs : list (list A)) size p os,
+  seqs <> [] -> goes_parallel sw (length seqs) size p = false ->
+  Forall (fun l => Sorted (sorted_rel ltb) l) seqs -> size <= total seqs ->
+  exists ts cur, pmwm ltb (part08 ltb) (seq05 ltb alg) sw true false sampling seqs size p os =
+                 Some {| p_threads := ts; p_cursors := cur; p_ret := size |} /\
+                 contiguous ts 0 size /\ output ts = firstn size (smerge ltb seqs) /\ length ts = 1.
+Proof. exact @closed_fallback_stable. Qed.
+Print Assumptions C07_closed_fallback_stable.
+
+(** the two notions of "the stable merge" coincide: C05's step-by-step merge = C07's fold of two-way merges *)
+Theorem C07_gmerge_is_smerge : forall (A : Type) (ltb : A -> A -> bool) (st : list (list A)),
+  TLXV.C05.StableMerge.gmerge ltb st = smerge ltb st.
+Proof. exact @gmerge_smerge. Qed.
+Print Assumptions C07_gmerge_is_smerge.
 
 (** the shipped code (tlx 704fd0b): witnesses of the three repaired defects *)
 Theorem C07_equally_split_shipped_refuted :
